@@ -337,6 +337,23 @@ def raw_schemas():
     out.append(("frame:df-check-index-sorted", lambda: pa.DataFrameSchema(
         {"v": pa.Column(int)}, index=pa.Index(int, pa.Check.in_range(0, 20), name="ix"),
         checks=pa.Check(lambda df: df.index.is_monotonic_increasing)), lambda d: d))
+    # several dataframe-level built-in checks: each one filters what the previous ones left
+    for label, chks in (("in_range+notin", lambda: [pa.Check.in_range(0, 10), pa.Check.notin([3, 4, 5])]),
+                        ("ge+le+ne", lambda: [pa.Check.ge(2), pa.Check.le(6), pa.Check.ne(4)]),
+                        ("isin+gt", lambda: [pa.Check.isin([1, 2, 3, 40]), pa.Check.gt(1)])):
+        out.append((f"frame:df-checks-chain:{label}", lambda chks=chks: pa.DataFrameSchema(
+            {"a": pa.Column(int), "b": pa.Column(int)}, checks=chks()), lambda d: d))
+    # named, nullable index components of every kind: drawn alone and as the index of a frame
+    for dt in ("float", "str", "datetime64[ns]", "timedelta64[ns]"):
+        for uniq in (False, True):
+            lab = f"{dt}{'-unique' if uniq else ''}"
+            out.append((f"index:nullable-named:{lab}", lambda dt=dt, uniq=uniq: pa.Index(dt, nullable=True, unique=uniq, name="idx"),
+                        lambda d: pd.DataFrame(index=d)))
+            out.append((f"frame:nullable-named-index:{lab}", lambda dt=dt, uniq=uniq: pa.DataFrameSchema(
+                {"v": pa.Column(int)}, index=pa.Index(dt, nullable=True, unique=uniq, name="idx")), lambda d: d))
+    out.append(("frame:nullable-named-multiindex", lambda: pa.DataFrameSchema(
+        {"v": pa.Column(int)}, index=pa.MultiIndex([pa.Index(float, nullable=True, name="i"), pa.Index(str, name="j")])),
+        lambda d: d))
     return out
 
 
